@@ -116,11 +116,13 @@ class Acc:
         if len(self.samples) < self.MAX_SAMPLES:
             self.samples.append(jsonable(s))
 
-    def violation(self, key, what, case, script=None):
+    def violation(self, key, what, case, script=None, size=None):
+        """`size` (optional, smaller = simpler) lets merges keep the simplest counter-example per key."""
         self.viol_count[key] = self.viol_count.get(key, 0) + 1
-        if key not in self.viol:
+        old = self.viol.get(key)
+        if old is None or (size is not None and old.get("size") is not None and size < old["size"]):
             self.viol[key] = {"key": key, "what": what, "case": jsonable(case),
-                              "script": script}
+                              "script": script, "size": size}
 
     def observe(self, text):
         self.obs[text] = self.obs.get(text, 0) + 1
@@ -141,7 +143,10 @@ class Acc:
             if len(self.samples) < self.MAX_SAMPLES:
                 self.samples.append(s)
         for k, v in o.viol.items():
-            self.viol.setdefault(k, v)
+            old = self.viol.get(k)
+            if old is None or (v.get("size") is not None and old.get("size") is not None
+                               and v["size"] < old["size"]):
+                self.viol[k] = v
         for k, v in o.viol_count.items():
             self.viol_count[k] = self.viol_count.get(k, 0) + v
         for k, v in o.obs.items():
